@@ -69,7 +69,7 @@ def case_strategy(tier, modes, damage_min, damage_max, max_files=None):
         t = draw(trees.tree(P, max_files=max_files or (7 if tier == "quick" else 16), modes=modes, nonempty_total=True))
         src = draw(meta_source(len(t["files"]), t["single"]))
         dmg = draw(damage_list(t, damage_min, damage_max)) if damage_max else []
-        return {"tree": t, "P": P, "meta": src, "content_path": draw(st.sampled_from(["root", "parent"])), "damage": dmg,
+        return {"tree": t, "P": P, "meta": src, "content_path": draw(st.sampled_from(["root", "parent", "root", "parent", "root-symlink"])), "damage": dmg,
                 # "prime": the same process first rechecks the intact payload; the damage is then applied in place with the
                 # old timestamps restored (bit rot, cp -p), so anything remembered per file from the first run is stale
                 "prime": draw(st.sampled_from([False, False, True])) if dmg else False}
@@ -92,6 +92,11 @@ def build(scr, case):
                              v2_single_length=src.get("v2_single_length", False))
         with open(out, "wb") as fd:
             fd.write(data)
+    if case.get("content_path") == "root-symlink":
+        # the payload lives under another name; the path the user gives is a symbolic link that carries the torrent's name
+        real = os.path.join(parent, "stored-as-" + tree["name"])
+        os.rename(root, real)
+        os.symlink(os.path.basename(real), root)
     return root, parent, out
 
 
